@@ -51,13 +51,19 @@ private:
 [[nodiscard]] constexpr auto operator+(chrono::year_month const& ym, chrono::months const& dm) noexcept
     -> chrono::year_month
 {
-    return {ym.year(), ym.month() + dm};
+    // month index counted from January of ym.year(); the floor division carries into the year
+    auto const mo  = static_cast<long long>(static_cast<unsigned>(ym.month())) - 1 + dm.count();
+    auto const div = (mo >= 0 ? mo : mo - 11) / 12;
+    return {
+        ym.year() + chrono::years{static_cast<chrono::years::rep>(div)},
+        chrono::month{static_cast<unsigned>(mo - div * 12 + 1)},
+    };
 }
 
 [[nodiscard]] constexpr auto operator+(chrono::months const& dm, chrono::year_month const& ym) noexcept
     -> chrono::year_month
 {
-    return {ym.year(), ym.month() + dm};
+    return ym + dm;
 }
 
 [[nodiscard]] constexpr auto operator-(chrono::year_month const& ym, chrono::years const& dy) noexcept
@@ -69,7 +75,7 @@ private:
 [[nodiscard]] constexpr auto operator-(chrono::year_month const& ym, chrono::months const& dm) noexcept
     -> chrono::year_month
 {
-    return {ym.year(), ym.month() - dm};
+    return ym + -dm;
 }
 
 // [[nodiscard]] constexpr auto operator-(chrono::year_month const& ym1, chrono::year_month const&
